@@ -1,1 +1,95 @@
-From CMinx Require Import Base.Str.
+(* Properties/C11.v -- Test entries carry the declared name, EXPECTFAIL flag and arguments.
+   Only theorem statements; proofs are in Proofs/EntryFacts.v.  Spec: Spec/EntrySpec.v
+   (name_after, other_args, ct_view, add_test_view; one_name = the keyword NAME occurs once). *)
+From Coq Require Import String List NArith.
+From CMinx Require Import Base.Str Model.Parser Model.Writer Model.DocTypes Model.Aggregator
+     Spec.EntrySpec Gen.SourceLiterals Proofs.EntryFacts Proofs.LiteralsMatch.
+Import ListNotations.
+
+(* the name is the argument following NAME, at any position; None iff NAME is the last argument *)
+Theorem C11_scan_name_spec :
+  forall ps acc, one_name ps = true -> scan_name ps acc = name_after ps.
+Proof. exact scan_name_spec. Qed.
+Print Assumptions C11_scan_name_spec.
+
+Theorem C11_has_expectfail_spec : forall ps, has_expectfail ps = mem_str EXPECTFAIL ps.
+Proof. exact has_expectfail_spec. Qed.
+Print Assumptions C11_has_expectfail_spec.
+
+(* ct_add_test / ct_add_section *)
+Theorem C11_process_test_spec :
+  forall is_section c doc docd st,
+    2 <= length (singles c) -> one_name (singles c) = true ->
+    process_test is_section c doc docd st
+    = match ct_view (singles c) with
+      | Some (n, xf) =>
+          with_awaiting (AwTop (length (documented st)))
+                        (append (ETest is_section n doc xf [] false) docd st)
+      | None => st
+      end.
+Proof. exact process_test_spec. Qed.
+Print Assumptions C11_process_test_spec.
+
+(* add_test: all other arguments, in order, by position (arguments equal to the name stay) *)
+Theorem C11_process_add_test_spec :
+  forall c doc docd st,
+    2 <= length (singles c) -> one_name (singles c) = true ->
+    process_add_test c doc docd st
+    = match add_test_view (singles c) with
+      | Some (n, others) => append (ECTest n doc others) docd st
+      | None => st
+      end.
+Proof. exact process_add_test_spec. Qed.
+Print Assumptions C11_process_add_test_spec.
+
+(* rendering: EXPECTFAIL in the signature iff flagged; the matching do-not-call warning *)
+Theorem C11_render_test_entry :
+  forall sec n d xf ps mac,
+    render_entry (ETest sec n d xf ps mac)
+    = Dir (s"function") [n ++ s"(" ++ (if xf then EXPECTFAIL else []) ++ s")"] []
+          [Dir (s"warning") [if sec then section_warning else test_warning] [] []; Para d].
+Proof. exact render_test_entry. Qed.
+Print Assumptions C11_render_test_entry.
+
+Theorem C11_render_ctest_entry :
+  forall n d ps,
+    render_entry (ECTest n d ps)
+    = Dir (s"function") [signature n ps] [] [Dir (s"warning") [ctest_warning] [] []; Para d].
+Proof. exact render_ctest_entry. Qed.
+Print Assumptions C11_render_ctest_entry.
+
+Theorem C11_warnings_distinct :
+  str_eqb test_warning section_warning = false
+  /\ str_eqb test_warning ctest_warning = false
+  /\ str_eqb section_warning ctest_warning = false
+  /\ str_eqb test_warning generic_warning = false
+  /\ str_eqb section_warning generic_warning = false
+  /\ str_eqb ctest_warning generic_warning = false.
+Proof. exact warnings_distinct. Qed.
+Print Assumptions C11_warnings_distinct.
+
+(* keywords and warning texts are those of the source *)
+Theorem C11_keywords_pinned :
+  get (s"DocumentationAggregator.process_ct_add_test") aggregator_strings
+  = [[nl]; F; []; kw_name; [nl]; F; kw_expectfail]
+  /\ get (s"DocumentationAggregator.process_ct_add_section") aggregator_strings
+  = [[nl]; F; []; kw_name; [nl]; F; kw_expectfail]
+  /\ geti (s"DocumentationAggregator.process_ct_add_test") aggregator_ints = [2; 0; 1]
+  /\ geti (s"DocumentationAggregator.process_ct_add_section") aggregator_ints = [2; 0; 1].
+Proof. exact ct_add_test_literals. Qed.
+Print Assumptions C11_keywords_pinned.
+
+Theorem C11_add_test_literals_pinned :
+  get (s"DocumentationAggregator.process_add_test") aggregator_strings
+  = [[nl]; F; []; kw_name; [nl]; F]
+  /\ geti (s"DocumentationAggregator.process_add_test") aggregator_ints = [2; 1; 0; 1; 0; 1].
+Proof. exact add_test_literals. Qed.
+Print Assumptions C11_add_test_literals_pinned.
+
+Theorem C11_warning_texts_pinned :
+  get (s"TestDocumentation.process") doctypes_strings
+  = [s"function"; F; s"("; F; kw_expectfail; []; s")"; s"warning"; test_warning]
+  /\ get (s"SectionDocumentation.process") doctypes_strings
+  = [s"function"; F; s"("; F; kw_expectfail; []; s")"; s"warning"; section_warning].
+Proof. exact test_doc_literals. Qed.
+Print Assumptions C11_warning_texts_pinned.
